@@ -12,7 +12,7 @@ EXTENDS StaticP, Json
 CONSTANTS MaxSegs, EmitCases,
           Dev    \* "NOBOUNDARY": negative control - the segment-boundary test after the prefix is missing
 \* "pfxf" / "pfxd": the prefix followed by exactly the one-character name of an entry of the root
-Names == {"f", "d", "e", "g", "index", "pfx", "pfxx", "pfxf", "pfxd", "secret", "..", ".", ""}
+Names == {"f", "d", "e", "x", "g", "index", "pfx", "pfxx", "pfxf", "pfxd", "secret", "..", ".", ""}
 Methods == {"GET", "HEAD", "POST"}
 Prefixes == { <<>>, <<"pfx">> }
 VARIABLES method, segs, prefix
